@@ -82,6 +82,8 @@ UcNames == {"ucA", "ucB"}
 InitSt == [ conn  |-> {},                          \* peers with a connection (SetupRemoteDevice)
             addr  |-> {},                          \* peers whose device address is known (discovery reply seen)
             known |-> [p \in Peers |-> {}],         \* remote entities known per peer
+            edesc |-> [p \in Peers |-> [e \in REnts |-> 0]],  \* version of the description last announced for a known
+                                                    \* entity (0 = none / not known; the entity type is fixed per address)
             feats |-> [p \in Peers |-> {}],         \* remote features known per peer: [f, v] (v = announced version:
                                                     \* description and operations), without the node management feature
             subs  |-> {},                           \* [p, c, s]  server-side subscription registry
@@ -153,7 +155,7 @@ Ideal == "ideal"
 
 ConnectOut(st, a) ==
     LET p == a.p IN
-    { Outcome([st EXCEPT !.conn = @ \cup {p}, !.known[p] = {"0"}, !.rucs[p] = 0], NoOut, {}, "ok", Ideal) }
+    { Outcome([st EXCEPT !.conn = @ \cup {p}, !.known[p] = {"0"}, !.rucs[p] = 0, !.edesc[p] = [e \in REnts |-> 0]], NoOut, {}, "ok", Ideal) }
 
 OfPeer(set, p)      == {e \in set : e.p = p}
 OfPeerEnt(set, p, e) == {x \in set : x.p = p /\ RF[x.c].ent = e}
@@ -168,12 +170,14 @@ RemEventsSt(st, t, set) == {Ev(t, "remove", x.p, "", IF RKnown(st, x.p, x.c) THE
 \* (fresh feature objects: cached data of the old ones is gone)
 SetEnt(st, p, e, fs, v) ==
     [st EXCEPT !.known[p] = @ \cup {e},
+               !.edesc[p][e] = v,
                !.feats[p] = {x \in @ : RF[x.f].ent # e} \cup {[f |-> f, v |-> v] : f \in fs},
                !.rdata[p] = IF e = "1" THEN 0 ELSE @,
                !.rucs[p] = IF e = "0" THEN 0 ELSE @]
 \* entity e of peer p removed: its features, and exactly the registry entries and client-side references of that entity
 DropEnt(st, p, e) ==
     [st EXCEPT !.known[p] = @ \ {e},
+               !.edesc[p][e] = 0,
                !.feats[p] = {x \in @ : RF[x.f].ent # e},
                !.rdata[p] = IF e = "1" THEN 0 ELSE @,
                !.subs = @ \ OfPeerEnt(st.subs, p, e), !.binds = @ \ OfPeerEnt(st.binds, p, e),
@@ -202,7 +206,7 @@ DisconnectOut(st, a) ==
     LET p == a.p IN
     IF p \notin st.conn
     THEN { Outcome(st, NoOut, {Ev("dev", "remove", p, "", "", "")}, "ok", Ideal) }
-    ELSE { Outcome([st EXCEPT !.conn = @ \ {p}, !.addr = @ \ {p}, !.known[p] = {}, !.feats[p] = {}, !.rdata[p] = 0, !.rucs[p] = 0, !.unans[p] = 0,
+    ELSE { Outcome([st EXCEPT !.conn = @ \ {p}, !.addr = @ \ {p}, !.known[p] = {}, !.edesc[p] = [e \in REnts |-> 0], !.feats[p] = {}, !.rdata[p] = 0, !.rucs[p] = 0, !.unans[p] = 0,
                                !.subs = @ \ OfPeer(st.subs, p), !.binds = @ \ OfPeer(st.binds, p),
                                !.csub = @ \ OfPeer(st.csub, p), !.cbind = @ \ OfPeer(st.cbind, p)],
                    NoOut,
@@ -257,7 +261,7 @@ AnnOut(st, a) ==
          LET r == ApplyItems(st, p, a.items, 1)
              new0 == IF "0" \in st.known[p] THEN {} ELSE {Ev("ent", "add", p, "0", "", "")}
          \* (entity "0" is announced again: its node management feature is a fresh object, the cached use cases are gone)
-         IN { Outcome([r.st EXCEPT !.addr = @ \cup {p}, !.known[p] = @ \cup {"0"}, !.rucs[p] = 0,
+         IN { Outcome([r.st EXCEPT !.addr = @ \cup {p}, !.known[p] = @ \cup {"0"}, !.rucs[p] = 0, !.edesc[p]["0"] = 1,
                                    !.csub = @ \cup {[k |-> "NM", p |-> p, r |-> "nm"]}],
                       OutTo(p, Ack(a, "NM", "nm")),
                       {Ev("dev", "add", p, "", "", "")} \cup new0 \cup r.ev, "ok", Ideal) }
@@ -276,7 +280,7 @@ AnnOut(st, a) ==
              refreshed  == ApplyItems(st, p, a.items \o goneItems, 1)
              nochange   == gone = {} /\ \A i \in DOMAIN a.items : IsOld(a.items[i])
          IN { Outcome(diffOnly.st, OutTo(p, Ack(a, "NM", "nm")), diffOnly.ev, "ok", Ideal),
-              Outcome([refreshed.st EXCEPT !.rucs[p] = 0], OutTo(p, Ack(a, "NM", "nm")), refreshed.ev, "ok", Ideal) }
+              Outcome([refreshed.st EXCEPT !.rucs[p] = 0, !.edesc[p]["0"] = 1], OutTo(p, Ack(a, "NM", "nm")), refreshed.ev, "ok", Ideal) }
             \cup (IF nochange THEN { Outcome(st, OutTo(p, {ResErr("NM", "nm")}), {}, "ok", Ideal) } ELSE {})
 
 ---------------------------------------------------------------------------
@@ -390,6 +394,8 @@ Consume(st, k, h)   == [st EXCEPT !.cbs = {y \in @ : ~(y.k = k /\ y.h = h)}]
 \* any datagram from p that references K1's unanswered request re-enables sending it
 Answered(st, a) == IF a.ref # 0 /\ st.unans[a.p] = a.ref THEN [st EXCEPT !.unans[a.p] = 0] ELSE st
 
+\* the function a payload carries ("limitp" = limit data with a partial filter: merged into the cache, same abstract value)
+PlFn(pl) == IF pl = "limitp" THEN "limit" ELSE pl
 RecvOut0(st, a) ==
     LET p == a.p  c == a.c  s == a.s
         err == { Outcome(st, OutTo(p, {ResErr(s, c)}), {}, "ok", Ideal) }
@@ -419,9 +425,9 @@ RecvOut0(st, a) ==
               IF a.pl = "usecase" THEN { Outcome([st EXCEPT !.rucs[p] = IF c = "nm" THEN a.v ELSE @],
                                                  OutTo(p, Ack(a, s, c)), {Ev("data", a.cls, p, "", c, "")}, "ok", Ideal) }
               ELSE err
-         ELSE IF a.pl \in RemoteTypeFns(c)
+         ELSE IF PlFn(a.pl) \in RemoteTypeFns(c)
          THEN { WithCbf(Outcome([(IF a.cls = "reply" THEN Consume(st, s, a.ref) ELSE st)
-                                    EXCEPT !.rdata[p] = IF c = "s14" /\ a.pl = "limit" THEN a.v ELSE @,
+                                    EXCEPT !.rdata[p] = IF c = "s14" /\ PlFn(a.pl) = "limit" THEN a.v ELSE @,
                                            !.rucs[p] = IF c = "nm" /\ a.pl = "usecase" THEN a.v ELSE @],
                                 OutTo(p, Ack(a, s, c)), {Ev("data", a.cls, p, "", c, s)}, "ok", Ideal),
                         IF a.cls = "reply" THEN RespFired(st, s, a.ref) ELSE {}) }
@@ -625,7 +631,8 @@ Inputs(st) ==
                                 p \in DiscP(st), cls \in {"reply", "result"},
                                 c \in (IF "cbrecv" \in Tiny THEN {"s14"} ELSE {"s14", "c11"}),
                                 sd \in (IF "cbrecv" \in Tiny THEN {"K1"} ELSE {"K1", "S1"}),
-                                pl \in (IF "cbrecv" \in Tiny THEN {"limit", "kv", "res1"} ELSE {"limit", "kv", "res0", "res1"}),
+                                \* ("limitp": the limit data with a partial filter - the callback gets the data received, not the merged cache)
+                                pl \in (IF "cbrecv" \in Tiny THEN {"limit", "limitp", "kv", "res1"} ELSE {"limit", "limitp", "kv", "res0", "res1"}),
                                 v \in Vals, h \in 0..st.nid} :
                           (x.cls = "result") = (x.pl \in ResultPls)})
     \* C20: use cases over 2 entities x 2 actors x 2 names (re-adding an existing name, removing unknown ones included)
